@@ -67,6 +67,12 @@ package object
 //@ pred objDir(root, h) := pjoin(pjoin(root, "objects"), bsub(hex(h), 0, 2))
 //@ pred objPath(root, h) := pjoin(objDir(root, h), bsub(hex(h), 2, len(hex(h))))
 //@ pred stored(f, root, h, t, d) := isFile(f, objPath(root, h)) && content(f, objPath(root, h)) == zlibEnc(objBytes(t, d))
+//@ pred isKindName(s) := s == "blob" || s == "tree" || s == "commit" || s == "tag"
+//@ pred kindOfName(s) := ite(s == "blob", BlobObject, ite(s == "tree", TreeObject, ite(s == "commit", CommitObject, ite(s == "tag", TagObject, UndefinedObject))))
+// kind of whatever is stored under an id: the word before the first blank of the decompressed content's header
+//@ pred plainOf(f, root, h) := zlibDec(content(f, objPath(root, h)))
+//@ pred storedKind(f, root, h) := kindOfName(splitHead(bsub(plainOf(f, root, h), 0, indexOfByte(plainOf(f, root, h), 0, 0)), " "))
+//@ pred commitStored(f, root, h) := isFile(f, objPath(root, h)) && storedKind(f, root, h) == CommitObject
 
 //@ func NewObject
 //@   returns o, err
@@ -92,10 +98,9 @@ package object
 //@   ensures [stored] {C01,C02,C03,C04} err == nil ==> stored(fs, rootGoitPath, o.Hash, o.Type, string(o.Data))
 //@   ensures [frame] {C01,C03,C04} forall q string :: q != objPath(rootGoitPath, o.Hash) && q != objDir(rootGoitPath, o.Hash) ==> fs[q] == old(fs)[q]
 //@   ensures [dir] {C03} isDir(old(fs), objDir(rootGoitPath, o.Hash)) ==> isDir(fs, objDir(rootGoitPath, o.Hash))
+//@   ensures [kind] {C03,C02} err == nil && isKind(o.Type) ==> storedKind(fs, rootGoitPath, o.Hash) == o.Type
 
 //@ pred hdrText(r, p0) := bsub(rdContent(r), p0, indexOfByte(rdContent(r), 0, p0))
-//@ pred isKindName(s) := s == "blob" || s == "tree" || s == "commit" || s == "tag"
-//@ pred kindOfName(s) := ite(s == "blob", BlobObject, ite(s == "tree", TreeObject, ite(s == "commit", CommitObject, ite(s == "tag", TagObject, UndefinedObject))))
 
 //@ func readHeader
 //@   returns t, size, err
@@ -117,6 +122,7 @@ package object
 //@   ensures [hash==requested] {C19,C01} err == nil ==> string(o.Hash) == string(hash)
 //@   ensures [absent] {C01} isAbsent(fs, objPath(rootGoitPath, hash)) ==> err != nil
 //@   ensures [payload] {C08,C09} err == nil ==> string(o.Data) == payloadOf(zlibDec(content(fs, objPath(rootGoitPath, hash)))) && isFile(fs, objPath(rootGoitPath, hash))
+//@   ensures [kind] {C03,C10} err == nil ==> o.Type == storedKind(fs, rootGoitPath, hash)
 //@   ensures [nil] err != nil ==> o == nil
 
 // ---- commits
